@@ -75,6 +75,31 @@ static void part_messages(uint64_t &top)
             vp::outcome("messages: build+measure+read");
         }
     }
+    // messages with many arguments (more than 32, 64, 128 payload-carrying arguments)
+    for(size_t nargs : {31u, 32u, 33u, 40u, 65u, 130u}) for(char tag : {'i', 'h', 's', 'b', 'T'}) {
+        if(!vp::mine(top++)) continue;
+        std::string ts(nargs, tag); if(tag != 'T') ts[nargs / 2] = 'T';
+        std::string cid = "many|" + std::to_string(nargs) + tag;
+        if(!vp::want(cid)) continue;
+        std::vector<ref::Arg> args; for(char t : ts) if(ref::has_data(t)) { ref::Arg a; a.type = t; a.u32 = 7; a.u64 = 7; a.s = "xy"; a.b = {1, 2, 3}; a.b_len = 3; args.push_back(a); }
+        std::vector<rtosc_arg_t> ra; for(auto &a : args) ra.push_back(gen::to_rtosc(a));
+        static CArg c[512]; bool snan; int n = flatten(ts, args, c, snan);
+        const char *TS = ts.c_str();
+        rtosc::ThreadLink tl(8192, 2);
+        struct Sink : rtosc::RtData { void reply(const char *) override {} void broadcast(const char *) override {} using rtosc::RtData::reply; using rtosc::RtData::broadcast; } sinkd;
+        vp::state(); vp::eval(); vp::nontrivial(vp::fnv(cid));
+        volatile size_t sink = 0;
+        RT_BEGIN
+            size_t len = rtosc_amessage(g_buf, sizeof g_buf, "/many", TS, ra.data());
+            sink += call_valist(g_buf2, sizeof g_buf2, "/many", TS, c, n);
+            sink += call_valist(nullptr, 0, "/many", TS, c, n);
+            sink += rtosc_message_length(g_buf, len); sink += rtosc_narguments(g_buf);
+            rtosc_arg_itr_t it = rtosc_itr_begin(g_buf); while(!rtosc_itr_end(it)) { rtosc_arg_val_t av = rtosc_itr_next(&it); sink += (size_t)av.type; }
+            sink += (size_t)rtosc_argument(g_buf, (unsigned)nargs - 1).i;
+            tl.raw_write(g_buf); if(tl.hasNext()) sink += (size_t)tl.read()[1];
+        RT_END("message-build-measure-read", "many-arguments", cid)
+        vp::outcome("messages with 31..130 arguments");
+    }
     // bundles
     auto alph = bgen::alphabet(2);
     std::vector<std::string> mem; for(auto &e : alph) { std::string m = e.bytes; m.append(16, '\0'); mem.push_back(m); }
@@ -140,8 +165,8 @@ static void derive(gt::Node &n, const std::string &prefix, std::set<std::string>
 }
 static void part_dispatch(uint64_t &top)
 {
-    static const char *U[] = {"a", "ab", "abc", "acb", "b#3", "c/d", "s/", "t#2/", "ab/"};
-    const int NU = 9;
+    static const char *U[] = {"a", "ab", "abc", "acb", "b#3", "c/d", "s/", "t#2/", "ab/", "a_port_name_of_more_than_16_chars", "a_port_name_of_more_than_16_charz/"};
+    const int NU = 11;
     for(uint32_t mask = 1; mask < (1u << NU); ++mask) for(int variant = 0; variant < 2; ++variant) for(int dh = 0; dh < 2; ++dh, ++top) {
         if(!vp::mine(top)) continue;
         std::string cid = "dispatch|m" + std::to_string(mask) + "|v" + std::to_string(variant) + "|d" + std::to_string(dh);
@@ -154,6 +179,7 @@ static void part_dispatch(uint64_t &top)
             root->ports.push_back(p);
         }
         root->default_handler = dh;
+        root->fat_callbacks = (mask % 3) == 0;       // a third of the tables: callbacks with a closure that std::function keeps on the heap
         int np = 0, nn = 0; gt::build(*root, np, nn);
         std::set<std::string> base; derive(*root, "", base);
         std::vector<std::string> msgs;
@@ -175,7 +201,7 @@ static void part_dispatch(uint64_t &top)
                 rtosc::RtData f; f.obj = &root->obj_tag; f.loc = g_loc; f.loc_size = sizeof g_loc;
                 root->built->dispatch(m.data() + 1, f, false);
             }
-        RT_END("Ports::dispatch", (mask & 0x1d0 ? "table-with-#-or-multi-component(linear)" : "table-without-#(hash-attempted)"), cid)
+        RT_END("Ports::dispatch", (mask & 0xB0 ? "table-with-#-or-multi-component(linear)" : "table-without-#(hash-attempted)"), cid)
         gt::R().record = true;
         vp::outcome(std::string("dispatch: ") + (dh ? "default handler" : "no default handler"));
     }
@@ -258,7 +284,7 @@ int main(int argc, char **argv)
     part_dispatch(top);
     part_params(top);
     part_threadlink(top);
-    vp::bound("families", "messages: all well-nested type strings of length 0..3 over 17 symbols x each-used values x 3 address lengths, built by amessage/message/vmessage and read by every accessor; bundles: all sequences of 0..3 elements (nesting <= 2); rtosc_match: 18 patterns x all addresses up to length 3 x 6 type strings; dispatch: all 511 subsets of a 9-name universe (hashed, linear, #N, multi-component, nested 3 levels) x specs x default handler x derived matching/non-matching/oversized messages x 3 dispatch modes; every port of the C14 application x 12 type strings, in/out of range values, unknown addresses; ThreadLink 16/32 x 2/3 with 0..3 pre-filled messages");
+    vp::bound("families", "messages: all well-nested type strings of length 0..3 over 17 symbols x each-used values x 3 address lengths, built by amessage/message/vmessage and read by every accessor; bundles: all sequences of 0..3 elements (nesting <= 2); rtosc_match: 18 patterns x all addresses up to length 3 x 6 type strings; dispatch: all 2047 subsets of an 11-name universe (incl. names longer than the small-string buffer, callbacks with large closures) (hashed, linear, #N, multi-component, nested 3 levels) x specs x default handler x derived matching/non-matching/oversized messages x 3 dispatch modes; every port of the C14 application x 12 type strings, in/out of range values, unknown addresses; ThreadLink 16/32 x 2/3 with 0..3 pre-filled messages");
     vp::outcome("realtime sections checked", g_sections);
     vp::sample("RT section: rtosc_amessage + varargs + accessors for address '/a', types 'sbh'");
     vp::sample("RT section: Ports::dispatch of 40 derived messages on table {a, ab, b#3, s/ -> {x, y#2:i, z/ -> {q}}} with default handler");
